@@ -10,31 +10,9 @@
 (* A state is a world; Next appends one key (and a value that either       *)
 (* repeats the previous one or is new), so TLC enumerates all worlds.      *)
 (***************************************************************************)
-EXTENDS SlimQuery
+EXTENDS Worlds
 
-CONSTANTS Alphabet, MaxLen, MaxKeys
 
-VARIABLES keys, vals, dd, hasvals
-
-vars == <<keys, vals, dd, hasvals>>
-
-Strings == StringsUpTo(Alphabet, MaxLen)
-
-Init == keys = <<>> /\ vals = <<>> /\ dd \in BOOLEAN /\ hasvals \in BOOLEAN
-
-Next ==
-  /\ Len(keys) < MaxKeys
-  /\ \E k \in Strings :
-       /\ (IF Len(keys) = 0 THEN TRUE ELSE Lt(keys[Len(keys)], k))
-       /\ keys' = Append(keys, k)
-       /\ \E same \in (IF dd /\ hasvals /\ Len(keys) > 0 THEN BOOLEAN ELSE {FALSE}) :
-            vals' = Append(vals, IF same THEN vals[Len(vals)] ELSE <<Len(vals) + 1>>)
-  /\ UNCHANGED <<dd, hasvals>>
-
-Modes == {[innp |-> a, leafp |-> b] : a \in BOOLEAN, b \in BOOLEAN}
-
-R == RetainedIdx(Len(keys), vals, hasvals, dd)
-Nodes == BuildNodes(keys, vals, hasvals, dd, TRUE)
 
 \* the Model's answers for every mode and every string of the universe, computed
 \* once per world: A[o][q] = <<get, id, rget, search>>
@@ -49,7 +27,6 @@ Answers(nodes) ==
               IF s[2] # -1 THEN <<1, LV(s[2])>> ELSE IF s[1] = -1 THEN <<0, NilV>> ELSE <<1, LV(s[1])>>,
               <<LV(s[1]), LV(s[2]), LV(s[3])>> >>])])
 
-Complete == [innp |-> TRUE, leafp |-> TRUE]
 
 Inv ==
   LET nodes == TLCEval(Nodes)
